@@ -2,9 +2,18 @@
 from cs_util import *  # noqa: F401,F403
 
 
-def _ex(rng, bp, mode="generate", proj="p0", diag=None, seed=None):
-    return {"op": "exec", "proj": proj, "mode": mode, "bp": bp, "hash_seed": rng.hash_seed() if seed is None else seed,
-            "diag": diag}
+def _ex(rng, bp, mode="generate", proj="p0", diag=None, seed=None, out=None, expect_fail=None):
+    st = {"op": "exec", "proj": proj, "mode": mode, "bp": bp, "hash_seed": rng.hash_seed() if seed is None else seed,
+          "diag": diag}
+    if out:
+        st["out"] = out  # another spelling of the same output directory ($WS = the workspace root)
+    if expect_fail:
+        st["expect_fail"] = expect_fail
+    return st
+
+
+# spellings of `<workspace root>/sdk` that `-o` accepts
+OUT_SPELLINGS = ["./sdk", "sdk/", "../ws/sdk", "simapp/../sdk", "$WS/sdk", "$WS/../ws/sdk", "./simdep/.././sdk"]
 
 
 def _diag_gen(rng):
@@ -75,7 +84,7 @@ class Planner:
         rng = self.rng("edit", i)
         bp = rng.choice(self.dep_heavy) if rng.chance(4, 5) else rng.choice(self.valid)
         e = rng.weighted([(9, "move_a_b"), (3, "move_b_c"), (3, "dep_sig"), (2, "dep_lifecycle"), (2, "dep_body"),
-                          (2, "dep_feature"), (2, "app_sig"), (2, "app_path")])
+                          (2, "dep_feature"), (2, "app_sig"), (2, "app_path"), (4, "dep_include")])
         steps = []
         if rng.chance(1, 2):
             steps.append(_ex(rng, bp, diag=_diag_gen(rng)))
@@ -108,7 +117,7 @@ class Planner:
         other = rng.choice(self.valid + self.invalid[:4])
         init = {}
         if rng.chance(1, 2):
-            init["p1"] = [rng.choice(["move_a_b", "move_b_c", "dep_sig", "dep_body"])]
+            init["p1"] = [rng.choice(["move_a_b", "move_b_c", "dep_sig", "dep_body", "dep_include"])]
         if rng.chance(1, 4):
             init["p0"] = [rng.choice(["move_a_b", "dep_sig"])]
         steps = [_ex(rng, other, proj="p1", diag=_diag_gen(rng))]
@@ -175,6 +184,35 @@ class Planner:
                  {"op": "crash_enum", "prefix_draw": 1 + rng.below(1 << 16), "exec": _ex(rng, bp, diag="diag.dot")}]
         self.add("crash_enum", rng, steps)
 
+    def outpath(self, i):
+        """the same output directory under another spelling of the -o argument"""
+        rng = self.rng("outpath", i)
+        bp = rng.choice(self.valid)
+        out = OUT_SPELLINGS[(i + rng.below(2)) % len(OUT_SPELLINGS)]
+        steps = []
+        if rng.chance(1, 2):
+            steps.append(_seed_outdir(rng, bp, self.valid))
+        steps.append(_ex(rng, bp, diag=_diag_gen(rng), out=out))
+        steps.append(_ex(rng, bp))  # the plain spelling: a re-run on unchanged inputs
+        steps.append(_ex(rng, bp, mode="check", out=rng.choice(OUT_SPELLINGS)))
+        if rng.chance(1, 2):
+            bad = rng.choice(self.invalid)
+            steps.append(_ex(rng, bad, out=rng.choice(OUT_SPELLINGS)))
+        self.add("outpath", rng, steps, self.init_cache(rng))
+
+    def broken_sdk(self, i):
+        """an SDK on disk whose manifest no longer parses (merge-conflict markers) and that is not
+        registered as a workspace member: the run fails in the persist phase"""
+        rng = self.rng("broken_sdk", i)
+        bp = rng.choice(self.valid)
+        other = rng.choice([b for b in self.valid if b != bp])
+        steps = [{"op": "seed_outdir", "proj": "p0", "state": "broken_manifest", "bp": other, "toggles": [],
+                  "flip": {"draw": rng.below(1 << 30)}},
+                 _ex(rng, bp, diag=_diag_gen(rng), expect_fail="broken-sdk-manifest"),
+                 {"op": "seed_outdir", "proj": "p0", "state": "golden", "bp": bp, "toggles": []},
+                 _ex(rng, bp, mode="check"), _ex(rng, bp)]
+        self.add("broken_sdk", rng, steps)
+
     def empty(self, i):
         rng = self.rng("empty", i)
         bp = rng.choice(self.valid)
@@ -206,6 +244,8 @@ class Planner:
                 self.crash_enum(i, bp)
             for i in range(1 if q else 4):
                 self.empty(i)
+            for i in range(3 if q else 28):
+                self.outpath(i)
             if not q:
                 for rep in range(1, 9):
                     for i, bp in enumerate(self.valid):
@@ -232,6 +272,10 @@ class Planner:
                 self.crash_enum(i, self.valid[r.below(len(self.valid))])
             for i in range(0 if q else 4):
                 self.empty(i)
+            for i in range(3 if q else 28):
+                self.outpath(100 + i)
+            for i in range(2 if q else 16):
+                self.broken_sdk(i)
             if not q:
                 for rep in range(1, 8):
                     for i, bp in enumerate(self.valid):
